@@ -5,7 +5,7 @@
    codes, the default response or a generic API error otherwise, always carrying the code the handler answered with.
    Together with C03_values (the server hands the typed value of what was sent) this is the parameter half; payload
    (de)serialisation is C05's model; transport, media-type negotiation and header typing are exercised by the harness. *)
-From GS Require Import Base.Str Tools.GenServer Tools.GenServerLemmas.
+From GS Require Import Base.Str Tools.Decimal Tools.GenServer Tools.GenServerLemmas Tools.IntText Tools.ClientServer.
 
 Theorem C04_split_join : forall sep items,
   Forall (fun x => clean_item sep x = true) items -> items <> [] -> split_by sep (join_by sep items) = items.
@@ -24,6 +24,18 @@ Print Assumptions C04_typed_iff_declared.
 Theorem C04_undeclared_is_api_error : forall declared code, ~ In code declared -> client_read declared false code = APIError code.
 Proof. exact client_read_undeclared. Qed.
 Print Assumptions C04_undeclared_is_api_error.
+
+(* scalar parameters: what the client writes for a value of the parameter's Go type (the string itself,
+   swag.FormatInt*, swag.FormatBool) is bound by the server to that very value, whenever the value is valid *)
+Theorem C04_param_roundtrip : forall p v,
+  typed (sp_type p) v = true -> valid_value (sp_type p) v = true -> render v <> [] -> bind p [render v] true = Bound v.
+Proof. exact param_roundtrip. Qed.
+Print Assumptions C04_param_roundtrip.
+
+(* the decimal text of any integer is read back by the server's integer parser as that integer *)
+Theorem C04_integer_text : forall z, parse_int_go (dec_text z) = Some z.
+Proof. exact parse_int_go_dec_text. Qed.
+Print Assumptions C04_integer_text.
 
 Example C04_nonvacuous :
   Forall (fun x => clean_item 44 x = true) [s "a b"; s "c"; s "1"] /\
